@@ -94,6 +94,27 @@ def monitor(pid, year, base, assign, r, asked):
             cnt['solves'] += 1
             errs, _ = monitors.c03(fl, rr)
             add(errs, dict(schedule=kind))
+        if not assign and r.exc is None:
+            # the first solve of a process (nothing evaluated before), federal lines first
+            from hv import fresh
+            kinds = ['reversed'] + (['mixed-fed-file', 'mixed-nc-file'] if any(k.startswith('nc_') for k in r.final_inputs) else [])
+            for kind in kinds:
+                ch = fresh.child(year, base.name, kind, inputs=r.final_inputs if kind.startswith('mixed') else None)
+                cnt['solves'] += 1
+                if 'error' in ch:
+                    viols.append(('fresh-process-failed', f'fresh interpreter: {ch["error"]}', dict(schedule='fresh-' + kind)))
+                else:
+                    add([tuple(e) for e in ch['c03']], dict(schedule='fresh-' + kind))
+        if not assign and r.exc is None:
+            # a store that a solver of another tax year has used before: every line must still be the fixed point of its
+            # own (this year's) definition
+            for other in sorted(y for y in available_forms if y != year):
+                st = world.make_store(r.final_inputs)
+                world.run_solve(available_forms[other], base.requested, None, answer=None, store=st, instrument=False)
+                rb = world.run_solve(fl, base.requested, None, answer=None, store=st, keep_solver=True)
+                cnt['solves'] += 2
+                errs, _ = monitors.c03(fl, rb)
+                add(errs, dict(schedule=f'store-after-year-{other}'))
     elif pid == 'C04':
         errs, closure = monitors.c04(fl, base.requested, r)
         add(errs)
@@ -152,6 +173,20 @@ def monitor(pid, year, base, assign, r, asked):
                 cnt['solves'] += 2
                 if rb.canon() != c0:
                     viols.append(('store-history-dependent', f'the input store was used by a {other} solver before: {_diff(r, rb)[:300]}', dict(variant=f'store-after-year-{other}')))
+            # (c) a fresh interpreter, in which nothing has been solved before, under the natural and the reversed order
+            from hv import fresh
+            mine = fresh.plain(r)
+            for kind in ['natural', 'reversed'] + (['mixed-fed-file', 'mixed-nc-file'] if any(k.startswith('nc_') for k in r.final_inputs) else []):
+                ch = fresh.child(year, base.name, kind, inputs=r.final_inputs if kind.startswith('mixed') else None)
+                cnt['solves'] += 1
+                cnt['fresh_interpreters'] = cnt.get('fresh_interpreters', 0) + 1
+                if 'error' in ch:
+                    viols.append(('fresh-process-failed', f'fresh interpreter ({kind}): {ch["error"]}', dict(variant=f'fresh-{kind}')))
+                elif ch['outcome'] != mine:
+                    a, b = mine.get('solution', {}), ch['outcome'].get('solution', {})
+                    dd = [f'{sec}.{k}: {a.get(sec, {}).get(k)!r} here vs {b.get(sec, {}).get(k)!r} fresh' for sec in sorted(set(a) | set(b))
+                          for k in sorted(set(a.get(sec, {})) | set(b.get(sec, {}))) if a.get(sec, {}).get(k) != b.get(sec, {}).get(k)][:4]
+                    viols.append(('process-history-dependent', f'a fresh interpreter ({kind} order) gives another outcome than this long-lived worker: {dd or "verdict / diagnostics differ"}', dict(variant=f'fresh-{kind}')))
             add(_cli_layouts(year, base, r))
             cnt['solves'] += 5
             errs, k = _cli_argv(year, base, r)
